@@ -17,6 +17,9 @@ K06 = [
     # same name, so a call rewritten onto the wrong receiver still runs
     (Skeleton("g04_method_dotted_receiver", {
         "main.py": "class Inner:\n    def meth(self, {0}, {1}=4):\n        return ('inner', {0}, {1})\nclass Outer:\n    def __init__(self):\n        self.inner = Inner()\n    def meth(self, {0}, {1}=4):\n        return ('outer', {0}, {1})\n{2} = Outer()\nprint({2}.inner.meth(5), {2}.inner.meth({0}=6, {1}=7), {2}.meth(1), Outer().inner.meth(8, 9))\n"}), "main.py", "meth"),
+    # non-ASCII characters inside the call (ast columns count bytes, rope's text offsets count characters)
+    (Skeleton("g06_non_ascii_arguments", {
+        "main.py": "def target({0}, {1}=10):\n    return ({0}, {1})\n{2} = 1\nprint(target('\u00e9', {2}), target({2}, {1}='\u00fc'), target('\u00df' + 'x'))\n"}), "main.py", "target"),
     # the method is inherited: called on instances of a subclass that does not override it
     (Skeleton("g05_method_inherited", {
         "main.py": "class Base:\n    def meth(self, {0}, {1}=4):\n        return ({0}, {1})\nclass Sub(Base):\n    def other(self, {2}):\n        return self.meth({2}, {1}=6)\n{3} = Sub()\nprint({3}.meth(5), {3}.meth({0}=6, {1}=7), {3}.other(1), Sub().meth(8, 9), Base().meth(1))\n"}), "main.py", "meth"),
